@@ -11,7 +11,7 @@ ASSUMPTIONS = c01.ASSUMPTIONS + ["clean shutdown = HStore.Close after the asynch
 
 
 def run(ctx):
-    res = c01.run_mode(ctx, MODE, 120 if ctx.tier == "quick" else 4000, PID)
+    res = c01.run_mode(ctx, MODE, 120 if ctx.tier == "quick" else 1500, PID)
     rs = sc.run_sched(ctx, "closeflush", 0, ctx.seed)
     for r in rs:
         res["spec_violations"] += sc.scenario_oracle(r)
